@@ -56,7 +56,13 @@ def run(cx: Cx):
         is_list = AIsInst(gen, Sym('list'))
         if implies(p.cond, is_arr) is None:
             seen.add('ndarray')
-            ok = v == gen or (isinstance(v, App) and v.args and gen in v.args)
+            copies = ('.copy', 'copy', '.array', '.asarray', 'list', 'call')
+            ok = v == gen
+            if isinstance(v, App) and v.args and gen in v.args:
+                # numpy.copy(gen) / gen.copy() / numpy.array(gen): element i stays element i; a converting call
+                # (nan_to_num, astype, clip, sort, ...) does not
+                nm = v.fn if v.fn != 'call' else repr(v.args[0])
+                ok = any(nm.endswith(c) for c in ('.copy', 'copy', '.array', '.asarray', 'numpy.copy', 'numpy.array'))
             if not ok:
                 cx.violation('R-GUARD', add.qualname, 'array-source-stored', f"an ndarray source is stored as {v!r}", where=where)
         elif implies(p.cond, is_list) is None:
@@ -253,7 +259,7 @@ def run(cx: Cx):
                      where=cx.where(lg, reach[0][1].last.line if reach else None), arity=arity, reachable_depths=depths, worlds=worlds)
     from .common import include_premises
     include_premises(cx, ['C09'], 'reading a cell component through get_cell uses the coordinate -> id mapping',
-                     only=lambda o: o.function.endswith('.get_cell') or 'get_cell' in o.key)
+                     only=lambda o: o.rule in ('R-AGREE', 'R-FWD'))
     from .common import check_no_stateful_memo
     check_no_stateful_memo(cx)
 
